@@ -207,6 +207,8 @@ VCHECK("c07.iq", 300)
             }
             xml += QStringLiteral("</iq>");
             w.history += " stanza(id of " + q(r->id) + ",type=" + (type.isEmpty() ? "<none>" : q(type)) + ",from=" + fk + ")";
+            c.label("stanza-with-pending-id:from=" + fk);
+            c.label("stanza-with-pending-id:type=" + (type.isEmpty() ? std::string("<none>") : q(type)) + (malformedError ? "(no <error/>)" : ""));
             bool isReply = type == u"result" || type == u"error";
             if (isReply && authentic && w.open) {
                 r->modelDone = true;
@@ -244,6 +246,7 @@ VCHECK("c07.iq", 300)
                 break;
             bool resumable = w.sm && t.b();
             w.history += resumable ? " disconnect(resumable)" : " disconnect(not-resumable)";
+            c.label(std::string(resumable ? "disconnect(resumable)" : "disconnect(not-resumable)") + (pending.empty() ? "" : " with requests pending"));
             if (!pending.empty())
                 w.interesting = true;
             w.open = false;
@@ -261,6 +264,7 @@ VCHECK("c07.iq", 300)
             if (kind == 0 && !canResume)
                 kind = 1;
             w.history += kind == 0 ? " reconnect(resumed)" : kind == 1 ? " reconnect(new,sm)" : " reconnect(new,no-sm)";
+            c.label(std::string(kind == 0 ? "reconnect(resumed)" : kind == 1 ? "reconnect(new,sm)" : "reconnect(new,no-sm)") + (pending.empty() ? "" : " with requests pending"));
             if (kind != 0)
                 modelCancelAll(w, "new session");
             w.sm = kind != 2;
@@ -288,6 +292,8 @@ VCHECK("c07.iq", 300)
     cl.pump(1);
     w.history += " final-close";
     check(w, c, "at the end");
+    for (auto &r : w.reqs)
+        c.label("request-completed-with:" + q(r->modelOutcome.section(u':', 0, 0)));
     for (auto &r : w.reqs)
         c.require(r->completions == 1, "c07 request-left-pending", "request " + q(r->id) + " completed " + std::to_string(r->completions) + " times at the end of the history\n history:" + w.history);
     if (w.interesting)
